@@ -22,6 +22,55 @@ CLAIMED["C16"] = dict(
    text="For all key sequences, capacities and schedules: the cache returns the compilation of exactly the requested key, never inserts beyond capacity (the insertion is only entered by edges implying cap<=0 or len<cap inside one critical section), never stores a failed load, and every access to its mutable fields holds the right lock; constant patterns of matches()/replace() are compiled at Compile time.",
    note=TB + " Not decided: the $n -> ${n} rewriting of replace() beyond its loop bounds; a client-replaced RegexpCache.")
 
-NOT_APPLICABLE = {p: "check not built yet in this session (planned, see DESIGN.md §3)" for p in
-  ["C01","C03","C07","C08","C09","C10","C11","C12","C13","C14","C15","C17"]}
-NOTES = "All checks are static (family: static analysis). ./check.sh <id> [quick|thorough] loads /repo's working tree on every run. known_findings.json lists genuine defects (known/fixed). See DESIGN.md."
+
+CLAIMED["C01"] = dict(
+   technique="table/dispatch extraction and ownership analysis: axis dispatch completeness and wiring (A-DISPATCH), step-elision guard (A-ELIDE), movement frames per axis (N-FRAME), cursor ownership (N-OWN), path enumeration of the node-test predicate (B-NAMETEST), abbreviation tables (G-ABBREV), builder totality (X-TOTAL)",
+   text="Necessary conditions only: every one of the twelve axes is dispatched to an iterator wired to the step's input and node test with the right or-self/sibling flag; no step is dropped unless its test is node(); each iterator moves only in directions its axis permits and never moves a cursor it does not own; the node test accepts exactly (type, local name, prefix | bound URI) matches on all 21 paths of the predicate. Does NOT decide that the traversal algorithms enumerate exactly the axis (level counters, de-duplication, the descendant-over-descendant state machine).",
+   note=TB)
+CLAIMED["C03"] = dict(
+   technique="counter discipline analysis on go/ssa (N-POS): position() accessor, exactly-one-increment per yielded node, restart per parent; node-test method agreement (N-TEST); sibling counters of position()/last() (C03-LAST); guard-reset of posit (S-RESET)",
+   text="Necessary conditions only: the counter a [n] predicate is compared with counts each yielded child once, restarts for each parent (not for a parenthesised path), is read from the filter's own input; position()/last() count only siblings passing the step's node test. Does NOT decide the PosFilter/HasPosition/HasLast classification and the merge rewrite of the builder, nor positmap semantics.",
+   note=TB)
+CLAIMED["C07"] = dict(
+   technique="end-to-end table agreement (A-OPS), comparison-table typing/nil/panic/existential-shape/operand-order checks (A-CELLS), symbolic decision table of and/or (C07-SC), context-restore discipline (N-RESTORE, N-PEER)",
+   text="Operator strings reach the Go comparison of the same name in operand order for the in-scope cells; node-set cells are existential; no cell, primitive or conversion panics on document data; and/or evaluate left first, short-circuit per the 4-row decision table and both operands see the same context node.",
+   note=TB + " Not decided: NaN corner values beyond 'parse failure => NaN', relational operators on strings.")
+CLAIMED["C08"] = dict(
+   technique="binding checks: each arithmetic operator is the float64 operation of its name on asNumber(left), asNumber(right) in order (A-OPS), unary minus shape (G-LEVELS), to-number conversion totality (C08-NAN), function->primitive table (B-PRIM), integer-division census (X-CENSUS/X-DIV), context restore (N-RESTORE)",
+   text="Binding only: + - * div are the IEEE-754 float64 operations on the converted operands in order (NaN/infinity propagation is then a property of Go), mod is math.Mod, the to-number conversion covers all four value types and never panics, floor/ceiling/sum/count/number are bound to their primitives. Does NOT decide number lexing offsets, string() rendering of numbers (strconv 'g' format: string(0.00001) = 1e-05 is a value-level defect no rule here sees), sum() over non-numeric nodes.",
+   note=TB)
+CLAIMED["C09"] = dict(
+   technique="interval/len abstract interpretation of every index and slice expression (X-BOUNDS), argument wiring (B-ARGS, B-ARITY), function->primitive table with haystack/needle order (B-PRIM), deliberate-panic and nil-ness census (X-CENSUS)",
+   text="Decides the 'never fails for finite arguments' clause for substring and all other string functions (every slice/index of func.go proven in range by a two-bound abstract interpretation with relational guards), that each function name reaches its standard-library primitive with arguments in order, and that the only aborts are typed argument complaints. Does NOT decide the returned characters.",
+   note=TB + " Floats are assumed finite and non-NaN in X-BOUNDS.")
+CLAIMED["C10"] = dict(
+   technique="grammar extraction from the parser's SSA (G-LEVELS: precedence chain, operator sets, token->operator map, associativity), scanner table interpretation incl. evaluation of the name-character predicate over the RangeTables (G-TOKENS), abbreviation sites (G-ABBREV)",
+   text="The extracted precedence chain, operator sets, token/operator maps and associativity equal the XPath 1.0 table for all operator pairs at once (the property's 'exhaustive over pairs' is a statement about 8 functions, which is what is inspected); white space is skipped before every token and before '('; no ASCII operator character is a name character; abbreviations expand to the spec pairs.",
+   note=TB + " Not decided: number/string lexing offsets.")
+CLAIMED["C11"] = dict(
+   technique="unique-decodability analysis of the identity key written by getHashCode (B-HASH), union loop bookkeeping, cursor ownership and restore (N-OWN, N-RESTORE), reset rules for the union query, sequence => '|' (G-ABBREV)",
+   text="Distinct nodes get distinct key strings (every variable-length field is length-prefixed, last, or followed by a byte outside its alphabet), both operands are fully drained from the same context, a node is kept iff its key is new. Only a 64-bit FNV collision can still merge two nodes.",
+   note=TB + " Not decided: FNV collisions; navigators with unstable sibling order.")
+CLAIMED["C12"] = dict(
+   technique="movement frames of the flat axes (N-FRAME), iterator protocol of NodeIterator.MoveNext and both constructors (N-ITER, S-ENTRY), leaf-producer exhaustion guard, reverse() index discipline (C12-REV), count() binding (B-PRIM)",
+   text="Forward-only frames of child/attribute/self (no repeats or reordering from one input node); MoveNext returns false exactly on exhaustion without touching the node, otherwise positions Current on a private copy of the reported node; Evaluate and Select build their iterator from the same (clone, navigator) pair; reverse yields len-1..0. Does NOT decide pre-order correctness of the descendant step's level arithmetic.",
+   note=TB)
+CLAIMED["C13"] = dict(
+   technique="ownership analysis of every moving navigator call with reaching stores per closure variable (N-OWN), restore discipline of the context cursor as a clean/dirty data-flow (N-RESTORE), operand-use ordering (N-PEER), leaf producers (absolute => copy moved to root, relative => copy of context)",
+   text="Decides the cursor discipline behind the property: no step moves a cursor it does not own; every function that moves the shared context cursor restores it from a copy saved while clean before every return, so operands, arguments and later steps are evaluated relative to the same context node; an absolute path always starts from a copy moved to the root. Does NOT decide the algebraic identities as value equalities.",
+   note=TB)
+CLAIMED["C14"] = dict(
+   technique="exhaustive path enumeration of the node-test predicate closure (B-NAMETEST), prefix lookup guard and panic (G-EXPECT), name()/local-name()/namespace-uri() primitive table incl. empty-set => empty string (B-PRIM), optional-argument table (B-ARGS/B-ARITY)",
+   text="The three-branch match rule exactly as stated: prefix+local without URI information, URI+local when the expression has a binding and the navigator exposes URIs, unbound prefix => Compile error; the name functions read the right navigator methods and use the context node when called without argument.",
+   note=TB + " Not decided: prefix:* wildcards, navigators reporting inconsistent prefixes.")
+CLAIMED["C15"] = dict(
+   technique="run-time fault census over the SSA of all evaluator functions: every panic, unchecked type assertion, integer division, interface-method receiver, called func value, map write (X-CENSUS with a purpose-built non-nil analysis), every index/slice (X-BOUNDS), result-type universe (X-RESULT), builder totality (X-TOTAL), comparison table (A-CELLS)",
+   text="Per class of Go run-time error named in the property, every instruction of that class in run-time code (about 590 sites in 190 functions) is discharged by a stated rule or reported; explicit panics are typed complaints; Evaluate's results have documented types. Fail closed: a site no rule discharges is a violation.",
+   note=TB + " Assumes non-nil navigators from the caller and a non-nil RegexpCache; termination of Select loops relies on the navigator's tree being finite.")
+CLAIMED["C17"] = dict(
+   technique="post-dominance of opening tokens by checking consumers (G-PAIR), no-match-path analysis of the node-test parser and scanner (G-EXPECT), dispatch defaults, recover coverage (T-RECOVER), arity table (B-ARITY), builder totality (X-TOTAL)",
+   text="Per damage class of the statement: a cut after operator/slash/[/(/, ends in the node-test parser's panicking default; a cut inside a string panics in the scanner; a deleted ] or ) fails the checking consumer; unknown function/axis names reach a default that returns an error; a removed required argument is an arity error or an index fault inside the recover; malformed QNames panic; all panics are converted by build's recover.",
+   note=TB + " Not decided: damage that yields another valid expression; trailing garbage after a complete expression.")
+
+NOT_APPLICABLE = {}
+NOTES = "All checks are static (family: static analysis): ./check.sh <id> [quick|thorough] loads /repo's working tree with go/packages on every run, builds go/ssa and a VTA call graph and decides repository-specific rules; no code of /repo is executed by a check. thorough additionally re-runs the rules on the GOARCH=386 file set and applies the self-test corpus (/verif/mutants: semantic mutants that must be flagged, behaviour-preserving refactors that must stay silent) to scratch copies outside /repo and /verif. known_findings.json lists genuine defects (known/fixed); 26 'fix:' commits were made in /repo. Every property has at least one clause decided by a code-shape rule, so none is listed as not applicable; the clauses that are not decided are named per property in DESIGN.md section 3 and in each check's level text."
